@@ -247,7 +247,11 @@ def module_level(run):
             tag = f"w={weights}/a={act}/{'frozen' if frozen else 'unfrozen'}/{target}"
             if not run.expect_paths(res, f"C10/module[{tag}]", inst):
                 continue
-            rp = lambda m, s, i=dict(inst): replay_module(m, s, i)
+            rp = lambda m, s, i=dict(inst): replay_module(m, s, i, ("load",))
+            rp_types = lambda m, s, i=dict(inst): replay_module(m, s, i, ("types",))
+            rp_out = lambda m, s, i=dict(inst): replay_module(m, s, i, ("outputs",))
+            rp_save = lambda m, s, i=dict(inst): replay_module(m, s, i, ("resave",))
+            rp_w = lambda m, s, i=dict(inst): replay_module(m, s, i, ("weights",))
             for pi, r in enumerate(res):
                 if r.outcome != "return":
                     run.add(f"C10/module-round-trip-runs[{tag}]/path{pi}", r.hyps, z3.BoolVal(False), "property", inst, {"outcome": repr(r.value)[:300]}, replay=rp)
@@ -256,7 +260,7 @@ def module_level(run):
                 src, saved, tgt, sd2, work, (missing, unexpected, errors) = r.value
                 run.add(f"C10/state-dict-has-only-plain-tensors-and-strings[{tag}]/path{pi}", r.hyps,
                         z3.BoolVal(all(is_plain_tensor(v) or is_string(v) or (isinstance(v, STensor) and not is_wrapper(v)) for v in saved.values())), "property", inst,
-                        {"types": {k: type(v).__name__ for k, v in saved.items()}}, replay=rp)
+                        {"types": {k: type(v).__name__ for k, v in saved.items()}}, replay=rp_types)
                 run.add(f"C10/nothing-missing-or-unexpected[{tag}]/path{pi}", r.hyps, z3.BoolVal(not missing and not unexpected and not errors), "property", inst,
                         {"missing": missing, "unexpected": unexpected, "errors": errors}, replay=rp)
                 # every key written by save is consumed by load (pops) or belongs to the default (plain) entries
@@ -270,47 +274,47 @@ def module_level(run):
                 ws, wt = src.fields["weight"], tgt.fields["weight"]
                 if frozen:
                     okc = is_wrapper(wt) and wt.cls is ws.cls
-                    run.add(f"C10/frozen-weight-class-restored[{tag}]/path{pi}", r.hyps, z3.BoolVal(bool(okc)), "property", inst, replay=rp)
+                    run.add(f"C10/frozen-weight-class-restored[{tag}]/path{pi}", r.hyps, z3.BoolVal(bool(okc)), "property", inst, replay=rp_out)
                     if okc:
                         for fld in ("_scale",) + (("_zeropoint",) if "_zeropoint" in ws.fields else ("_data",)):
-                            run.add(f"C10/frozen-weight-{fld}-restored[{tag}]/path{pi}", r.hyps, same_tensor(ws.fields[fld], wt.fields[fld]), "property", inst, replay=rp)
+                            run.add(f"C10/frozen-weight-{fld}-restored[{tag}]/path{pi}", r.hyps, same_tensor(ws.fields[fld], wt.fields[fld]), "property", inst, replay=rp_out)
                         if "_zeropoint" in ws.fields:
                             g1 = ws.fields["_data"].fields.get("_ghost_codes") or ws.fields["_data"].fields["_data"].attrs.get("ghost_codes")
                             g2 = wt.fields["_data"].fields.get("_ghost_codes") or wt.fields["_data"].fields["_data"].attrs.get("ghost_codes")
                             run.add(f"C10/frozen-weight-codes-restored[{tag}]/path{pi}", r.hyps, same_tensor(g1, g2) if (g1 is not None and g2 is not None) else z3.BoolVal(False),
                                     "property", inst, replay=rp)
                             gs = E.eq(ws.fields["_group_size"], wt.fields["_group_size"])
-                            run.add(f"C10/frozen-weight-group-size-restored[{tag}]/path{pi}", r.hyps, gs if not isinstance(gs, bool) else z3.BoolVal(gs), "property", inst, replay=rp)
+                            run.add(f"C10/frozen-weight-group-size-restored[{tag}]/path{pi}", r.hyps, gs if not isinstance(gs, bool) else z3.BoolVal(gs), "property", inst, replay=rp_out)
                         run.add(f"C10/frozen-weight-meta-restored[{tag}]/path{pi}", r.hyps,
                                 z3.And(z3.BoolVal(wt.fields["_qtype"] is ws.fields["_qtype"] and wt.fields["_axis"] == ws.fields["_axis"]),
                                        lib.shape_eq(list(wt.fields["_w_size"]), list(ws.fields["_w_size"]))), "property", inst, replay=rp)
                 else:
-                    run.add(f"C10/float-weight-restored[{tag}]/path{pi}", r.hyps, same_tensor(ws, wt) if isinstance(wt, STensor) else z3.BoolVal(False), "property", inst, replay=rp)
+                    run.add(f"C10/float-weight-restored[{tag}]/path{pi}", r.hyps, same_tensor(ws, wt) if isinstance(wt, STensor) else z3.BoolVal(False), "property", inst, replay=rp_w)
                     # an unfrozen model re-quantizes with the same group size after reload (outputs bit-identical)
                     gs = E.eq(src.fields["weight_group_size"], tgt.fields["weight_group_size"])
                     nm_ = "C10/requantize-path" if target == "default-quantized" else "C10"
-                    run.add(f"{nm_}/unfrozen-weight-group-size-restored[{tag}]/path{pi}", r.hyps, gs if not isinstance(gs, bool) else z3.BoolVal(gs), "property", inst, replay=rp)
+                    run.add(f"{nm_}/unfrozen-weight-group-size-restored[{tag}]/path{pi}", r.hyps, gs if not isinstance(gs, bool) else z3.BoolVal(gs), "property", inst, replay=rp_out)
                 if target == "same-quantized-warmed-up":
                     # the weights used by inference after the load are those of the source (no stale derived state survives the load)
                     qa, qb = src.fields.pop("__qw_after"), tgt.fields.pop("__qw_after")
                     okq = is_wrapper(qa) and is_wrapper(qb) and qa.cls is qb.cls
-                    run.add(f"C10/inference-weight-after-load-class[{tag}]/path{pi}", r.hyps, z3.BoolVal(bool(okq)), "property", inst, replay=rp)
+                    run.add(f"C10/inference-weight-after-load-class[{tag}]/path{pi}", r.hyps, z3.BoolVal(bool(okq)), "property", inst, replay=rp_out)
                     if okq:
                         from qvc.tm_tensor import reduction_facts
                         for fld in ("_scale",) + (("_zeropoint",) if "_zeropoint" in qa.fields else ("_data",)):
                             g = same_tensor(qa.fields[fld], qb.fields[fld])
                             facts_ = reduction_facts(E) + E.drain() + list(E.ps.get("lazy_facts", []))
-                            run.add(f"C10/inference-weight-after-load-equals-the-source's:{fld}[{tag}]/path{pi}", r.hyps + facts_, g, "property", inst, replay=rp, timeout=60)
+                            run.add(f"C10/inference-weight-after-load-equals-the-source's:{fld}[{tag}]/path{pi}", r.hyps + facts_, g, "property", inst, replay=rp_out, timeout=60)
                 # saving again gives an equal state_dict (keys + strings; tensors bit-identical)
                 ks = set(saved) == set(sd2)
-                run.add(f"C10/saving-again-same-keys[{tag}]/path{pi}", r.hyps, z3.BoolVal(ks), "property", inst, {"first": sorted(saved), "second": sorted(sd2)}, replay=rp)
+                run.add(f"C10/saving-again-same-keys[{tag}]/path{pi}", r.hyps, z3.BoolVal(ks), "property", inst, {"first": sorted(saved), "second": sorted(sd2)}, replay=rp_save)
                 if ks:
                     for k in saved:
                         a, b = saved[k], sd2[k]
                         if isinstance(a, STensor) and isinstance(b, STensor):
-                            run.add(f"C10/saving-again-equal:{k}[{tag}]/path{pi}", r.hyps, same_tensor(a, b), "property", inst, replay=rp)
+                            run.add(f"C10/saving-again-equal:{k}[{tag}]/path{pi}", r.hyps, same_tensor(a, b), "property", inst, replay=rp_save)
                         elif isinstance(a, str) and isinstance(b, str):
-                            run.add(f"C10/saving-again-equal:{k}[{tag}]/path{pi}", r.hyps, z3.BoolVal(a == b), "property", inst, replay=rp)
+                            run.add(f"C10/saving-again-equal:{k}[{tag}]/path{pi}", r.hyps, z3.BoolVal(a == b), "property", inst, replay=rp_save)
                 for o in r.obligations:
                     if o.kind in ("assert", "callee-pre", "torch-pre"):
                         run.add(f"C10/no-assertion-failure[{tag}]/path{pi}/{o.name}@{o.loc}", o.hyps, o.goal, "property", inst, replay=rp)
@@ -496,7 +500,9 @@ def replay_tensor(model, seed, inst):
     return None
 
 
-def replay_module(model, seed, inst):
+def replay_module(model, seed, inst, clauses=("types", "load", "outputs", "resave")):
+    """Native oracle: 'types' (state_dict values), 'load' (load_state_dict runs, nothing missing), 'outputs' (bit-identical outputs),
+    'resave' (saving again gives the same keys / strings)."""
     import torch
     from optimum.quanto import Calibration, freeze, qtypes, quantize
 
@@ -522,7 +528,7 @@ def replay_module(model, seed, inst):
         y = src(x)
     sd = src.state_dict()
     bad = {k: type(v).__name__ for k, v in sd.items() if not (type(v) is torch.Tensor or isinstance(v, str))}
-    if bad:
+    if bad and "types" in clauses:
         return {"what": "state_dict holds values that are neither plain tensors nor strings", "values": bad}
     tgt = mk()
     if inst["target"] == "default-quantized":
@@ -534,10 +540,26 @@ def replay_module(model, seed, inst):
     try:
         tgt.load_state_dict(sd)
     except Exception as e:
-        return {"what": f"load_state_dict raises {type(e).__name__}: {str(e)[:200]}"}
+        if "load" in clauses:
+            return {"what": f"load_state_dict raises {type(e).__name__}: {str(e)[:200]}"}
+        return None
+    if "resave" in clauses:
+        sd2 = tgt.state_dict()
+        if sorted(sd2) != sorted(sd):
+            return {"what": "saving again gives other keys", "only_first": sorted(set(sd) - set(sd2))[:5], "only_second": sorted(set(sd2) - set(sd))[:5]}
+        for k, v in sd.items():
+            w = sd2[k]
+            if isinstance(v, str) and v != w:
+                return {"what": f"saving again gives another '{k}'", "first": v, "second": w}
+            if type(v) is torch.Tensor and not (v.shape == w.shape and v.dtype == w.dtype and torch.equal(v.view(torch.uint8) if v.dtype.itemsize == 1 else v, w.view(torch.uint8) if w.dtype.itemsize == 1 else w)):
+                return {"what": f"saving again gives another tensor '{k}'"}
+    if "weights" in clauses:
+        for ms, mt in zip(src, tgt):
+            if hasattr(ms, "weight") and type(ms.weight.data) is torch.Tensor and not (type(mt.weight.data) is torch.Tensor and torch.equal(ms.weight, mt.weight)):
+                return {"what": "the float weight of an unfrozen module is not restored"}
     with torch.no_grad():
         y2 = tgt(x)
-    if not torch.equal(y, y2):
+    if "outputs" in clauses and not torch.equal(y, y2):
         return {"what": "outputs of the reloaded model differ", "max_abs_diff": (y - y2).abs().max().item(),
                 "group_sizes": [getattr(m, "weight_group_size", None) for m in tgt if hasattr(m, "weight_group_size")]}
     return None
